@@ -102,9 +102,9 @@ CHECKS = {
    note="bounds: gates <=10 (quick)/24; promptness is measured on the harness' virtual clock (time.Now is a model; a blocked Read advances it to the read deadline), real wall-clock time and goroutines blocked in a real kernel read are outside; a deadline context expires at its deadline on that clock (2.5 s and 0.4 s against ReadTimeout 1 s) and the error must then match context.DeadlineExceeded; the handshake harness uses cancellation only; non-preemptive schedules only"),
  "C11": dict(
    level="model_checking",
-   text="chpool (Acquire, Release, Do/Ping through a handle, checkIdleConnsHealth, Close) is executed together with the REAL github.com/jackc/puddle/v2 pool and x/sync/semaphore, interpreted from their SSA with goroutines as cooperative coroutines, over connections dialed from a scripted server. Histories: every sequence of <=4 (quick) / 6 (thorough) operations over {acquire, release of any handle ever handed out, ping through a held handle, idle health check, death of a held client} against a model of who holds what (acquired count == model, one holder per connection, dead connections never reissued, open <= MaxConns); plus the scripted ones: acquire/release/release-again/re-acquire/stale release by a previous holder/third acquire with MaxConns 1..2; a client closed while held; lifetime exceeded at release; idle time exceeded at the health check; healthy idle connections; pool Close. Assertions: a released handle is inert (repeated and stale releases change nothing, never panic), a connection has one holder (a third acquire never returns the connection another handle holds), open connections <= MaxConns, closed/expired connections are destroyed and not reissued, everything dialed is closed after Close.",
+   text="chpool (Acquire, Release, Do/Ping through a handle, checkIdleConnsHealth, Close) is executed together with the REAL github.com/jackc/puddle/v2 pool and x/sync/semaphore, interpreted from their SSA with goroutines as cooperative coroutines, over connections dialed from a scripted server. Histories: every sequence of <=4 (quick) / 5 (thorough) operations over {acquire, release of any handle ever handed out, ping through a held handle, idle health check, death of a held client} against a model of who holds what (acquired count == model, one holder per connection, dead connections never reissued, open <= MaxConns); plus the scripted ones: acquire/release/release-again/re-acquire/stale release by a previous holder/third acquire with MaxConns 1..2; a client closed while held; lifetime exceeded at release; idle time exceeded at the health check; healthy idle connections; pool Close. Assertions: a released handle is inert (repeated and stale releases change nothing, never panic), a connection has one holder (a third acquire never returns the connection another handle holds), open connections <= MaxConns, closed/expired connections are destroyed and not reissued, everything dialed is closed after Close.",
    ref="DESIGN.md §4 C11",
-   note="bounds: sequential handle histories of <=4/6 operations over <=2 connections; all interleavings of concurrent holders on real threads and the ticker-driven background goroutine are NOT decided (tickers never fire in the model; the health check is called directly); clock is concrete (1 ms per time.Now)"),
+   note="bounds: sequential handle histories of <=4/5 operations over <=2 connections; all interleavings of concurrent holders on real threads and the ticker-driven background goroutine are NOT decided (tickers never fire in the model; the health check is called directly); clock is concrete (1 ms per time.Now)"),
 }
 
 NA = {
